@@ -536,6 +536,8 @@ def as_bool_term(v):
   if isinstance(v, VReal):
     return v.t != 0
   if isinstance(v, VSet):
+    if getattr(v, 'truth', None) is not None:
+      return v.truth          # comprehension set: "some element exists"
     return v.t != z3.EmptySet(v.esort)
   if isinstance(v, VOpt):
     return z3.And(z3.Not(v.none), as_bool_term(v.val))
